@@ -249,13 +249,20 @@ class Folder:
             t = self.fold(expr.test, scope)
             return self.fold(expr.body if t else expr.orelse, scope)
         if isinstance(expr, ast.Compare) and len(expr.ops) == 1 and type(expr.ops[0]) in _CMP:
-            return _CMP[type(expr.ops[0])](self.fold(expr.left, scope), self.fold(expr.comparators[0], scope))
+            l_, r_ = self.fold(expr.left, scope), self.fold(expr.comparators[0], scope)
+            try:
+                return _CMP[type(expr.ops[0])](l_, r_)
+            except TypeError as e:
+                raise Unfoldable(str(e))
         if isinstance(expr, ast.Compare) and len(expr.ops) > 1 and all(type(o) in _CMP for o in expr.ops):
             left = self.fold(expr.left, scope)
             for op, c in zip(expr.ops, expr.comparators):
                 right = self.fold(c, scope)
-                if not _CMP[type(op)](left, right):
-                    return False
+                try:
+                    if not _CMP[type(op)](left, right):
+                        return False
+                except TypeError as e:
+                    raise Unfoldable(str(e))
                 left = right
             return True
         if isinstance(expr, ast.BoolOp):
